@@ -8,9 +8,21 @@ use simcore::rng::Rng;
 use sourcemap::{DecodedMap, RewriteOptions, SourceMap, SourceMapHermes, SourceMapIndex, SourceView, Token};
 use std::collections::BTreeMap;
 
+thread_local! {
+    /// debugging aid (VERIF_DEBUG_TIMES): wall time per library call name
+    pub static TIMES: std::cell::RefCell<Option<(std::time::Instant, BTreeMap<&'static str, f64>)>> = const { std::cell::RefCell::new(None) };
+}
+
 #[inline]
 fn api(name: &'static str) {
-    crate::alloc::MARK.with(|a| a.set(name));
+    let prev = crate::alloc::MARK.with(|a| a.replace(name));
+    TIMES.with(|t| {
+        if let Some((t0, m)) = t.borrow_mut().as_mut() {
+            let now = std::time::Instant::now();
+            *m.entry(prev).or_default() += now.duration_since(*t0).as_secs_f64();
+            *t0 = now;
+        }
+    });
 }
 
 pub fn current_api() -> &'static str {
